@@ -12,7 +12,7 @@
 From Coq Require Import List Bool Arith NArith ZArith Lia Permutation.
 From CliUtils Require Import Model.ObjSet Model.ActuationTable Model.PipelineTypes Model.Pipeline
      Proofs.ObjSetProofs Proofs.ActuationTableProofs Proofs.PipelineBase Proofs.PipelineAuth
-     Corr.CorrPipeline Proofs.PipelineOrphansBase Proofs.PipelineOrphansSpec.
+     Corr.CorrPipeline Proofs.PipelineOrphansBase Proofs.PipelineOrphansSpec Proofs.PipelineOrphansWait.
 Import ListNotations.
 
 Inductive flag := P0 | P1 | P2.
@@ -55,19 +55,29 @@ Section Inv.
     In i aids \/ In i (pl_invalid pl) \/ In i pids.
   Hypothesis pl_destroy : o_destroy (sc_opts sc) = true -> aids = [].
   Hypothesis pl_local : forall p l, In p (pl_apply pl) -> p_local p = Some l -> l_id l = p_id p.
+  (* the status watcher does not lie about objects held by a finalizer *)
+  Hypothesis fin_deliv : forall w o, In w (e_waits (sc_env sc)) -> In o (w_deliv w) -> finok sc c0 o.
+  Notation cacheok := (cacheok sc c0).
+  Notation ling := (ling sc c0).
 
   (* a UID that object i may legitimately carry: the one it had before the run, or a fresh one *)
   Definition okuid (i : id) (u : N) : Prop :=
     (exists c, fo c0 i = Some c /\ c_uid c = u) \/ (next_uid c0 <= u)%N.
 
-  Record Loc (s : rst) (td : list id) (j : id) : Prop := {
+  (* the reconcile status of a lingering object (delete accepted, held by a finalizer): failed or
+     timed out, or still pending while its wait task is to come (tw) *)
+  Definition rcok (s : rst) (tw : list id) (j : id) : Prop :=
+    rc s j = Some RFailed \/ rc s j = Some RTimeout \/ (rc s j = Some RPending /\ In j tw).
+
+  Record Loc (s : rst) (td tw : list id) (j : id) : Prop := {
     L_uid : forall c, fo (r_cl s) j = Some c -> okuid j (c_uid c);
     L_app : forall st a u, tv s j = Some (st, a, u) -> st = SApply -> In j aids /\ (a = ASucceeded -> okuid j u);
     L_reg : In j aids -> exists a u, tv s j = Some (SApply, a, u);
     L_orig : forall c, fo (r_cl s) j = Some c -> c_owner c = OOurs ->
              owned0 c0 j \/ (exists u, tv s j = Some (SApply, ASucceeded, u)) \/ nscreated (r_tr s) j;
     L_ret : forall c, fo (r_cl s) j = Some c -> c_owner c = OOurs -> In j pids ->
-            exists a u, tv s j = Some (SDelete, a, u) /\ a <> ASucceeded /\ ~ In j (r_aband s);
+            exists a u, tv s j = Some (SDelete, a, u) /\ ~ In j (r_aband s) /\
+                        (a = ASucceeded -> ling s j /\ rcok s tw j);
     L_pend : In j td -> exists st u, tv s j = Some (st, APending, u);
     L_todo : forall st u, tv s j = Some (st, APending, u) -> In j td;
     L_evf : forall u, tv s j = Some (SApply, AFailed, u) -> exists g, In (IEv (EApply g j AFail)) (r_tr s);
@@ -80,7 +90,7 @@ Section Inv.
   Definition merged (cl : cluster) : Prop :=
     exists L, inv cl = Some L /\ forall j, In j aids -> In j L.
 
-  Record Big (f : flag) (td : list id) (s : rst) : Prop := {
+  Record Big (f : flag) (td tw : list id) (s : rst) : Prop := {
     B_nd : NoDup (ids_of (r_cl s));
     B_keys : NoDup (tkeys (r_tbl s));
     B_td : NoDup td;
@@ -88,11 +98,12 @@ Section Inv.
     B_J : J sc c0 (r_cl s);
     B_p0 : f = P0 -> inv (r_cl s) = inv c0;
     B_p1 : f = P1 -> merged (r_cl s);
-    B_loc : forall j, Loc s td j;
+    B_loc : forall j, Loc s td tw j;
+    B_cache : cacheok s;
   }.
 
-  Definition Ij (f : flag) (td : list id) (s : rst) : Prop :=
-    if dry then r_cl s = c0 else Big f td s.
+  Definition Ij (f : flag) (td tw : list id) (s : rst) : Prop :=
+    if dry then r_cl s = c0 else Big f td tw s.
 
   Definition Qj (it : item) : Prop :=
     match it with
@@ -102,14 +113,14 @@ Section Inv.
     | _ => True
     end.
 
-  Definition stepj (f : flag) (td : list id) (f' : flag) (td' : list id) (s s' : rst) : Prop :=
-    exists l, r_tr s' = l ++ r_tr s /\ (KFp prev0 (r_tr s') -> Ij f td s -> Ij f' td' s' /\ Forall Qj l).
+  Definition stepj (f : flag) (td tw : list id) (f' : flag) (td' tw' : list id) (s s' : rst) : Prop :=
+    exists l, r_tr s' = l ++ r_tr s /\ (KFp prev0 (r_tr s') -> Ij f td tw s -> Ij f' td' tw' s' /\ Forall Qj l).
 
-  Lemma stepj_refl f td s : stepj f td f td s s.
+  Lemma stepj_refl f td tw s : stepj f td tw f td tw s s.
   Proof. exists []. split; [reflexivity|]. intros _ H. split; [exact H|constructor]. Qed.
 
-  Lemma stepj_trans f1 t1 f2 t2 f3 t3 a b c :
-    stepj f1 t1 f2 t2 a b -> stepj f2 t2 f3 t3 b c -> stepj f1 t1 f3 t3 a c.
+  Lemma stepj_trans f1 t1 w1 f2 t2 w2 f3 t3 w3 a b c :
+    stepj f1 t1 w1 f2 t2 w2 a b -> stepj f2 t2 w2 f3 t3 w3 b c -> stepj f1 t1 w1 f3 t3 w3 a c.
   Proof.
     intros [l1 [E1 H1]] [l2 [E2 H2]]. exists (l2 ++ l1). split; [rewrite E2, E1, app_assoc; reflexivity|].
     intros KF I0. assert (KFb : KFp prev0 (r_tr b)) by (rewrite E2 in KF; eapply KFp_suffix; exact KF).
@@ -150,20 +161,29 @@ Section Inv.
   Proof. intros [m [st H]]. exists m, st. apply in_or_app. right. exact H. Qed.
 
   (* ---- the per-identifier invariant is local ------------------------------------------- *)
-  Lemma Loc_frame_gen s s' td td' j l :
+  Lemma ling_tv s s' j : tv s' j = tv s j -> ling s j -> ling s' j.
+  Proof. intros E [UF [c' [H0 HT]]]. split; [exact UF|]. exists c'. split; [exact H0|]. rewrite E. exact HT. Qed.
+
+  Lemma rcok_mono s s' tw tw' j : rc s' j = rc s j -> (In j tw -> In j tw') -> rcok s tw j -> rcok s' tw' j.
+  Proof. unfold rcok. intros -> H. tauto. Qed.
+
+  Lemma Loc_frame_rc s s' td td' tw tw' j l :
     fo (r_cl s') j = fo (r_cl s) j -> tv s' j = tv s j ->
     (In j (r_aband s') <-> In j (r_aband s)) -> (In j td' <-> In j td) ->
     r_tr s' = l ++ r_tr s -> (nscreated (l ++ r_tr s) j -> nscreated (r_tr s) j) ->
-    Loc s td j -> Loc s' td' j.
+    (In j pids -> ling s j -> rcok s tw j -> rcok s' tw' j) ->
+    Loc s td tw j -> Loc s' td' tw' j.
   Proof.
-    intros Hf Ht Ha Hd Htr Hn [A1 A2 A3 A4 A5 A6 A7 A8 A9 A10 A11 A12].
+    intros Hf Ht Ha Hd Htr Hn Hrc [A1 A2 A3 A4 A5 A6 A7 A8 A9 A10 A11 A12].
     constructor; rewrite ?Hf, ?Ht.
     - exact A1.
     - exact A2.
     - exact A3.
     - intros c Hc Ho. destruct (A4 c Hc Ho) as [H|[H|H]]; [left; exact H|right; left; exact H|].
       right; right. rewrite Htr. apply nscreated_mono. exact H.
-    - intros c Hc Ho Hp. destruct (A5 c Hc Ho Hp) as [a [u [H1 [H2 H3]]]]. exists a, u. tauto.
+    - intros c Hc Ho Hp. destruct (A5 c Hc Ho Hp) as [a [u [H1 [H2 H3]]]]. exists a, u.
+      split; [exact H1|]. split; [tauto|]. intros Ea. destruct (H3 Ea) as [L R].
+      split; [exact (ling_tv s s' j Ht L)|exact (Hrc Hp L R)].
     - intros H. apply A6. tauto.
     - intros st u H. apply Hd. eapply A7. exact H.
     - intros u Hu. destruct (A8 u Hu) as [g Hg]. exists g. rewrite Htr. apply in_or_app. right. exact Hg.
@@ -173,39 +193,59 @@ Section Inv.
     - exact A12.
   Qed.
 
-  Lemma Loc_frame s s' td td' j l :
-    fo (r_cl s') j = fo (r_cl s) j -> tv s' j = tv s j ->
-    (In j (r_aband s') <-> In j (r_aband s)) -> (In j td' <-> In j td) ->
-    r_tr s' = l ++ r_tr s -> Forall nonsc l ->
-    Loc s td j -> Loc s' td' j.
+  Lemma Loc_frame_gen s s' td td' tw tw' j l :
+    fo (r_cl s') j = fo (r_cl s) j -> tv s' j = tv s j -> rc s' j = rc s j ->
+    (In j (r_aband s') <-> In j (r_aband s)) -> (In j td' <-> In j td) -> (In j tw -> In j tw') ->
+    r_tr s' = l ++ r_tr s -> (nscreated (l ++ r_tr s) j -> nscreated (r_tr s) j) ->
+    Loc s td tw j -> Loc s' td' tw' j.
   Proof.
-    intros Hf Ht Ha Hd Htr Hn. apply (Loc_frame_gen s s' td td' j l); auto. apply nscreated_frame. exact Hn.
+    intros Hf Ht Hr Ha Hd Hw Htr Hn. apply (Loc_frame_rc s s' td td' tw tw' j l); auto.
+    intros _ _. apply rcok_mono; assumption.
+  Qed.
+
+  Lemma Loc_frame s s' td td' tw tw' j l :
+    fo (r_cl s') j = fo (r_cl s) j -> tv s' j = tv s j -> rc s' j = rc s j ->
+    (In j (r_aband s') <-> In j (r_aband s)) -> (In j td' <-> In j td) -> (In j tw -> In j tw') ->
+    r_tr s' = l ++ r_tr s -> Forall nonsc l ->
+    Loc s td tw j -> Loc s' td' tw' j.
+  Proof.
+    intros Hf Ht Hr Ha Hd Hw Htr Hn. apply (Loc_frame_gen s s' td td' tw tw' j l); auto. apply nscreated_frame. exact Hn.
   Qed.
 
   (* ---- steps that touch neither cluster, actuations nor the abandoned set ---------------- *)
-  Lemma Big_quiet f td s s' : quiet s s' -> Big f td s -> Big f td s'.
+  (* (events only: the actuation table and the status cache are untouched) *)
+  Lemma Big_quiet f td tw s s' : quiet s s' -> r_tbl s' = r_tbl s -> r_cache s' = r_cache s ->
+    Big f td tw s -> Big f td tw s'.
   Proof.
-    intros [Q1 [Q2 [Q3 [Q4 [l [Q5 Q6]]]]]] [A1 A2 A3 A4 A5 A6 A7 A8].
+    intros [Q1 [Q2 [Q3 [Q4 [l [Q5 Q6]]]]]] ET EC [A1 A2 A3 A4 A5 A6 A7 A8 A9].
     constructor; rewrite ?Q1, ?Q3; try assumption.
-    intros j. apply (Loc_frame s s' td td j l); try rewrite Q1; try rewrite Q2; try tauto.
-    - apply Q4.
-    - eapply Forall_impl; [|exact Q6]. apply nonsc_noreq.
-    - apply A8.
+    - intros j. apply (Loc_frame s s' td td tw tw j l); try rewrite Q1; try rewrite Q2; try tauto.
+      + apply Q4.
+      + unfold rc. rewrite ET. reflexivity.
+      + eapply Forall_impl; [|exact Q6]. apply nonsc_noreq.
+      + apply A8.
+    - unfold PipelineOrphansWait.cacheok. rewrite EC. exact A9.
   Qed.
 
-  Lemma stepj_quiet f td s s' : quiet s s' -> stepj f td f td s s'.
+  Lemma stepj_quiet f td tw s s' : quiet s s' -> r_tbl s' = r_tbl s -> r_cache s' = r_cache s ->
+    stepj f td tw f td tw s s'.
   Proof.
-    intros Q. pose proof Q as [Q1 [Q2 [Q3 [Q4 [l [Q5 Q6]]]]]]. exists l. split; [exact Q5|].
+    intros Q ET EC. pose proof Q as [Q1 [Q2 [Q3 [Q4 [l [Q5 Q6]]]]]]. exists l. split; [exact Q5|].
     intros _ I0. split; [|apply Forall_Qj_noreq; exact Q6].
     unfold Ij in *. destruct dry; [congruence|]. eapply Big_quiet; eassumption.
   Qed.
 
-  Lemma stepj_ev f td s e : stepj f td f td s (ev s e).
-  Proof. apply stepj_quiet, quiet_ev. Qed.
+  Lemma stepj_ev f td tw s e : stepj f td tw f td tw s (ev s e).
+  Proof. apply stepj_quiet; [apply quiet_ev|reflexivity|reflexivity]. Qed.
 
-  (* weakening of the phase *)
-  Lemma Big_P2 f td s : Big f td s -> Big P2 td s.
-  Proof. intros [A1 A2 A3 A4 A5 A6 A7 A8]. constructor; try assumption; discriminate. Qed.
+  (* the wait-todo set may grow *)
+  Lemma Big_tw f td tw tw' s : (forall j, In j tw -> In j tw') -> Big f td tw s -> Big f td tw' s.
+  Proof.
+    intros H [A1 A2 A3 A4 A5 A6 A7 A8 A9]. constructor; try assumption.
+    intros j. apply (Loc_frame s s td td tw tw' j []); try tauto; try reflexivity; [apply H|constructor|apply A8].
+  Qed.
+  Lemma Ij_tw f td tw tw' s : (forall j, In j tw -> In j tw') -> Ij f td tw s -> Ij f td tw' s.
+  Proof. unfold Ij. intros H. destruct dry; [auto|apply Big_tw; exact H]. Qed.
 
   (* ---- the cluster-level property under the three kinds of object change ------------------- *)
   Lemma tracked_inv cl cl' k : inv cl' = inv cl -> tracked sc c0 cl k -> tracked sc c0 cl' k.
@@ -253,21 +293,28 @@ Section Inv.
     destruct (Nat.eqb (r_id r) j) eqn:X; [apply Nat.eqb_eq in X; congruence|reflexivity].
   Qed.
 
-  Lemma Loc_other s s' td td' i j r lt' :
+  Lemma rc_other s s' r j : r_tbl s' = set_status Nat.eqb (r_tbl s) r -> j <> r_id r -> rc s' j = rc s j.
+  Proof.
+    intros E H. unfold rc. rewrite E, rcl_set_status.
+    destruct (Nat.eqb (r_id r) j) eqn:X; [apply Nat.eqb_eq in X; congruence|reflexivity].
+  Qed.
+
+  Lemma Loc_other s s' td td' tw i j r lt' :
     j <> i -> r_id r = i ->
     (forall k, k <> i -> fo (r_cl s') k = fo (r_cl s) k) ->
     r_tbl s' = set_status Nat.eqb (r_tbl s) r ->
     (r_aband s' = r_aband s \/ r_aband s' = i :: r_aband s) ->
     (forall k, k <> i -> (In k td' <-> In k td)) ->
     r_tr s' = lt' ++ r_tr s -> Forall nonsc lt' ->
-    Loc s td j -> Loc s' td' j.
+    Loc s td tw j -> Loc s' td' tw j.
   Proof.
-    intros Hj Hr Hf Ht Ha Hd Htr Hn HL. apply (Loc_frame s s' td td' j lt'); auto.
+    intros Hj Hr Hf Ht Ha Hd Htr Hn HL. apply (Loc_frame s s' td td' tw tw j lt'); auto.
     - eapply tv_other; [exact Ht|intros X; apply Hj; rewrite X; exact Hr].
+    - eapply rc_other; [exact Ht|intros X; apply Hj; rewrite X; exact Hr].
     - destruct Ha as [-> | ->]; [tauto|]. cbn. split; [intros [X|X]; [congruence|exact X]|auto].
   Qed.
 
-  Lemma okuid_applied s td cl' i u : (next_uid c0 <= next_uid (r_cl s))%N -> Loc s td i ->
+  Lemma okuid_applied s td tw cl' i u : (next_uid c0 <= next_uid (r_cl s))%N -> Loc s td tw i ->
     applied (r_cl s) cl' i u -> okuid i u.
   Proof.
     intros Hn HL [_ [n [_ [_ [_ [[c [Hc Hu]]|[_ Hu]]]]]]].
@@ -278,8 +325,8 @@ Section Inv.
   Definition local_ok' (p : pobj) : Prop :=
     exists l, p_local p = Some l /\ l_id l = p_id p /\ In (p_id p) aids.
 
-  Lemma j_apply_one g td s p : local_ok' p ->
-    stepj P1 (p_id p :: td) P1 td s (apply_one sc pl g s p).
+  Lemma j_apply_one g td tw s p : local_ok' p ->
+    stepj P1 (p_id p :: td) tw P1 td tw s (apply_one sc pl g s p).
   Proof.
     intros [l [EL [EI Hi]]].
     destruct (apply_one_spec sc pl g s p l EL EI) as [SA [a [u [gen [lt [ST [STR [SF SO]]]]]]]]. cbv zeta in *.
@@ -291,24 +338,24 @@ Section Inv.
       { destruct SO as [[_ C]|[[_ [_ C]]|[_ [D _]]]]; [congruence|congruence|discriminate]. }
       split; [exact C|]. constructor; [exact I|]. rewrite C in SF.
       eapply Forall_Qj_snap; [exact c0_nodup|apply J_c0|exact SF]. }
-    destruct I0 as [A1 A2 A3 A4 A5 A6 A7 A8].
+    destruct I0 as [A1 A2 A3 A4 A5 A6 A7 A8 A9].
     assert (NDtd : NoDup td) by (inversion A3; assumption).
     assert (Hnot : ~ In i td) by (inversion A3; assumption).
     pose proof (A8 i) as Li.
-    assert (PEND : exists st0 u0, tv s i = Some (st0, APending, u0)) by (apply (L_pend _ _ _ Li); left; reflexivity).
+    assert (PEND : exists st0 u0, tv s i = Some (st0, APending, u0)) by (apply (L_pend _ _ _ _ Li); left; reflexivity).
     assert (TVi : tv s' i = Some (SApply, a, u)) by (exact (tv_self s s' _ ST)).
     assert (NS : Forall nonsc (IEv (EApply g i (ast_of a)) :: lt)).
     { constructor; [exact I|]. eapply Forall_impl; [|exact SF]. intros it. apply nonsc_snap. }
     assert (FR : frame (r_cl s) (r_cl s') i).
     { destruct SO as [[_ C]|[[_ [_ C]]|[_ [_ [C _]]]]]; [rewrite C; apply frame_refl|rewrite C; apply frame_refl|exact C]. }
     destruct FR as [F1 [F2 [F3 F4]]].
-    assert (OTHER : forall j, j <> i -> Loc s' td j).
+    assert (OTHER : forall j, j <> i -> Loc s' td tw j).
     { intros j Hj.
-      apply (Loc_other s s' (i :: td) td i j (mkRec i SApply a RPending u gen) (IEv (EApply g i (ast_of a)) :: lt) Hj eq_refl F2 ST (or_introl SA));
+      apply (Loc_other s s' (i :: td) td tw i j (mkRec i SApply a RPending u gen) (IEv (EApply g i (ast_of a)) :: lt) Hj eq_refl F2 ST (or_introl SA));
         [|exact STR|exact NS|apply A8].
       intros k Hk. cbn. split; [auto|intros [X|X]; [congruence|exact X]]. }
     assert (NOAB : ~ In i (r_aband s)).
-    { intros X. destruct (L_ab _ _ _ Li X) as [u1 E1]. destruct (L_reg _ _ _ Li Hi) as [a2 [u2 E2]]. congruence. }
+    { intros X. destruct (L_ab _ _ _ _ Li X) as [u1 E1]. destruct (L_reg _ _ _ _ Li Hi) as [a2 [u2 E2]]. congruence. }
     assert (JS' : J sc c0 (r_cl s')).
     { destruct SO as [[_ C]|[[_ [D _]]|[_ [_ C]]]]; [rewrite C; exact A5|discriminate|].
       eapply J_applied; [exact A5|exact C|exact Hi|apply A7; reflexivity]. }
@@ -327,10 +374,10 @@ Section Inv.
       destruct SO as [[Ha C]|[[_ [D _]]|[Ha [_ C]]]]; [|discriminate|].
       + (* failed or skipped: the cluster is unchanged *)
         constructor; rewrite ?C, ?TVi, ?SA.
-        * apply (L_uid _ _ _ Li).
+        * apply (L_uid _ _ _ _ Li).
         * intros st0 a0 u0 [= <- <- <-] _. split; [exact Hi|]. intros ->. destruct Ha; discriminate.
         * intros _. eauto.
-        * intros c Hc Ho. destruct (L_orig _ _ _ Li c Hc Ho) as [H|[[u1 H]|H]]; [left; exact H| |].
+        * intros c Hc Ho. destruct (L_orig _ _ _ _ Li c Hc Ho) as [H|[[u1 H]|H]]; [left; exact H| |].
           -- destruct PEND as [st0 [u0 E]]. congruence.
           -- right; right. rewrite STR. apply (nscreated_mono (_ :: lt)). exact H.
         * intros c _ _ Hp. exfalso. exact (pl_disj i Hi Hp).
@@ -340,9 +387,9 @@ Section Inv.
         * intros u0 [= -> _]. exists g. rewrite STR. left. reflexivity.
         * intros X. contradiction.
         * intros _. exact Hi.
-        * apply (L_keep _ _ _ Li).
+        * apply (L_keep _ _ _ _ Li).
       + (* applied *)
-        subst a. pose proof (okuid_applied s _ _ i u A4 Li C) as OKU.
+        subst a. pose proof (okuid_applied s _ _ _ i u A4 Li C) as OKU.
         destruct C as [_ [n [N1 [N2 [N3 _]]]]].
         constructor; rewrite ?TVi, ?SA.
         * intros c Hc. rewrite N1 in Hc. injection Hc as <-. rewrite N3. exact OKU.
@@ -357,10 +404,11 @@ Section Inv.
         * intros X. contradiction.
         * intros _. exact Hi.
         * intros _ _. rewrite N1. discriminate.
+    - unfold PipelineOrphansWait.cacheok. unfold s'. rewrite cache_apply_one. exact A9.
   Qed.
 
-  Lemma j_apply_task g td s layer : Forall local_ok' layer ->
-    stepj P1 (map p_id layer ++ td) P1 td s (apply_task sc pl g s layer).
+  Lemma j_apply_task g td tw s layer : Forall local_ok' layer ->
+    stepj P1 (map p_id layer ++ td) tw P1 td tw s (apply_task sc pl g s layer).
   Proof.
     unfold apply_task. revert s. induction layer as [|p t IH]; intros s F; cbn [fold_left map app].
     - apply stepj_refl.
@@ -381,10 +429,11 @@ Section Inv.
     - pose proof (c0_uid_lt _ _ H0) as LT. apply N.lt_nge in LT. contradiction.
   Qed.
 
-  Lemma j_prune_one locals g uids f td s p : (dry = false -> uids_ok uids) -> prune_ok pl p ->
-    stepj f (p_id p :: td) f td s (prune_one sc pl locals g uids s p).
+  Lemma j_prune_one locals g uids f td tw s p : (dry = false -> uids_ok uids) -> prune_ok pl p ->
+    (dry = false -> In (p_id p) tw) ->
+    stepj f (p_id p :: td) tw f td tw s (prune_one sc pl locals g uids s p).
   Proof.
-    intros HU0 [c [-> Hc]]. cbn [p_id pobj_of_live].
+    intros HU0 [c [-> Hc]] HW0. cbn [p_id pobj_of_live] in *.
     destruct (prune_one_spec sc pl locals g uids s c) as [a [u [ab [lt [ST [SA [STR [SF [SD SO]]]]]]]]]. cbv zeta in *.
     set (i := c_id c) in *. set (s' := prune_one sc pl locals g uids s (pobj_of_live c)) in *.
     exists (IEv (EPrune g i (ast_of a)) :: lt). split; [exact STR|].
@@ -392,39 +441,40 @@ Section Inv.
     { assert (C : r_cl s' = c0) by (rewrite (SD eq_refl); exact I0).
       split; [exact C|]. constructor; [exact I|]. rewrite C in SF.
       eapply Forall_Qj_snap; [exact c0_nodup|apply J_c0|exact SF]. }
-    destruct I0 as [A1 A2 A3 A4 A5 A6 A7 A8]. pose proof (HU0 eq_refl) as HU.
+    destruct I0 as [A1 A2 A3 A4 A5 A6 A7 A8 A9]. pose proof (HU0 eq_refl) as HU. pose proof (HW0 eq_refl) as HW.
     assert (NDtd : NoDup td) by (inversion A3; assumption).
     assert (Hnot : ~ In i td) by (inversion A3; assumption).
     pose proof (A8 i) as Li.
     assert (Hp : In i pids) by (unfold pids; apply in_map_iff; exists (pobj_of_live c); auto).
     assert (NA : ~ In i aids) by (intros X; exact (pl_disj i X Hp)).
     pose proof (pl_prune_c0 c Hc) as Hc0. fold i in Hc0.
-    assert (PEND : exists st0 u0, tv s i = Some (st0, APending, u0)) by (apply (L_pend _ _ _ Li); left; reflexivity).
+    assert (PEND : exists st0 u0, tv s i = Some (st0, APending, u0)) by (apply (L_pend _ _ _ _ Li); left; reflexivity).
     assert (TVi : tv s' i = Some (SDelete, a, u)) by (exact (tv_self s s' _ ST)).
+    assert (RCi : rc s' i = Some RPending) by (unfold rc; rewrite ST, rcl_set_status; cbn [r_id r_rec]; rewrite Nat.eqb_refl; reflexivity).
     assert (NS : Forall nonsc (IEv (EPrune g i (ast_of a)) :: lt)).
     { constructor; [exact I|]. eapply Forall_impl; [|exact SF]. intros it. apply nonsc_snap. }
     assert (AB : r_aband s' = r_aband s \/ r_aband s' = i :: r_aband s) by (rewrite SA; destruct ab; auto).
     assert (NOAB : ~ In i (r_aband s)).
-    { intros X. destruct (L_ab _ _ _ Li X) as [u1 E1]. destruct PEND as [st0 [u0 E0]]. congruence. }
+    { intros X. destruct (L_ab _ _ _ _ Li X) as [u1 E1]. destruct PEND as [st0 [u0 E0]]. congruence. }
     assert (ANP : a <> APending).
-    { destruct SO as [[[-> | ->] _]|[[-> _]|[[-> _]|[[-> _]|[-> _]]]]]; discriminate. }
+    { destruct SO as [[[-> | ->] _]|[[-> _]|[[-> _]|[[-> _]|[[-> _]|[-> _]]]]]]; discriminate. }
     (* the live object, if owned, was owned before the run *)
     assert (ORIG : forall c1, fo (r_cl s) i = Some c1 -> c_owner c1 = OOurs -> c_owner c = OOurs).
-    { intros c1 H1 H2. destruct (L_orig _ _ _ Li c1 H1 H2) as [[c2 [H3 H4]]|[[u1 H]|H]].
+    { intros c1 H1 H2. destruct (L_orig _ _ _ _ Li c1 H1 H2) as [[c2 [H3 H4]]|[[u1 H]|H]].
       - rewrite Hc0 in H3. injection H3 as <-. exact H4.
       - destruct PEND as [st0 [u0 E0]]. congruence.
-      - exfalso. apply NA. apply (L_ns _ _ _ Li H). }
+      - exfalso. apply NA. apply (L_ns _ _ _ _ Li H). }
     assert (FR : frame (r_cl s) (r_cl s') i).
-    { destruct SO as [[_ [_ C]]|[[_ [_ [C _]]]|[[_ [_ [C _]]]|[[_ [_ [C _]]]|[_ [_ [C _]]]]]]];
+    { destruct SO as [[_ [_ C]]|[[_ [_ [C _]]]|[[_ [_ [C _]]]|[[_ [_ [C _]]]|[[_ [_ [C _]]]|[_ [_ [C _]]]]]]]];
         try (rewrite C; apply frame_refl); exact C. }
     destruct FR as [F1 [F2 [F3 F4]]].
-    assert (OTHER : forall j, j <> i -> Loc s' td j).
+    assert (OTHER : forall j, j <> i -> Loc s' td tw j).
     { intros j Hj.
-      apply (Loc_other s s' (i :: td) td i j (mkRec i SDelete a RPending u 0%Z) (IEv (EPrune g i (ast_of a)) :: lt) Hj eq_refl F2 ST AB);
+      apply (Loc_other s s' (i :: td) td tw i j (mkRec i SDelete a RPending u 0%Z) (IEv (EPrune g i (ast_of a)) :: lt) Hj eq_refl F2 ST AB);
         [|exact STR|exact NS|apply A8].
       intros k Hk. cbn. split; [auto|intros [X|X]; [congruence|exact X]]. }
     assert (JS' : J sc c0 (r_cl s')).
-    { destruct SO as [[_ [_ C]]|[[_ [_ [C _]]]|[[_ [_ C]]|[[_ [_ [C _]]]|[_ [_ C]]]]]];
+    { destruct SO as [[_ [_ C]]|[[_ [_ [C _]]]|[[_ [_ C]]|[[_ [_ [C _]]]|[[_ [_ C]]|[_ [_ [C _]]]]]]]];
         try (rewrite C; exact A5).
       - eapply J_detached; eassumption.
       - eapply J_deleted; eassumption. }
@@ -442,21 +492,27 @@ Section Inv.
     - intros j. destruct (Nat.eq_dec j i) as [->|Hj]; [|apply OTHER; exact Hj].
       (* what is known of object i afterwards *)
       assert (OBJ : forall c1, fo (r_cl s') i = Some c1 -> c_owner c1 = OOurs ->
-                 fo (r_cl s) i = Some c1 /\ a <> ASucceeded /\ ~ In i (r_aband s')).
+                 fo (r_cl s) i = Some c1 /\ ~ In i (r_aband s') /\
+                 (a = ASucceeded -> ling s' i /\ rcok s' tw i)).
       { intros c1 H1 H2.
-        destruct SO as [[Ha [Hb C]]|[[Ha [Hb [C X]]]|[[Ha [Hb C]]|[[Ha [Hb [C X]]]|[Ha [Hb C]]]]]].
-        - rewrite C in H1. split; [exact H1|]. split; [destruct Ha; subst a; discriminate|].
-          rewrite SA, Hb. exact NOAB.
+        destruct SO as [[Ha [Hb C]]|[[Ha [Hb [C X]]]|[[Ha [Hb C]]|[[Ha [Hb [C X]]]|[[Ha [Hb C]]|[Ha [Hb [C [_ [EU [UF _]]]]]]]]]]].
+        - rewrite C in H1. split; [exact H1|]. split; [rewrite SA, Hb; exact NOAB|].
+          intros ->. destruct Ha; discriminate.
         - exfalso. rewrite C in H1. destruct X as [X|X].
           + exact (no_alias uids c HU Hc X).
           + pose proof (ORIG c1 H1 H2). congruence.
         - exfalso. destruct C as [_ [n [N1 [N2 _]]]]. rewrite N1 in H1. injection H1 as <-. congruence.
         - exfalso. rewrite C in H1. destruct X as [X|X]; [discriminate|]. congruence.
-        - exfalso. destruct C as [_ N1]. congruence. }
+        - exfalso. destruct C as [_ N1]. congruence.
+        - (* accepted, the finalizer keeps the object *)
+          rewrite C in H1. split; [exact H1|]. split; [rewrite SA, Hb; exact NOAB|]. intros _.
+          split.
+          + split; [exact UF|]. exists c. split; [exact Hc0|]. rewrite TVi, Ha, EU. reflexivity.
+          + right; right. split; [exact RCi|exact HW]. }
       constructor; rewrite ?TVi.
       + intros c1 H1.
-        destruct SO as [[_ [_ C]]|[[_ [_ [C _]]]|[[_ [_ C]]|[[_ [_ [C _]]]|[_ [_ C]]]]]];
-          try (rewrite C in H1; apply (L_uid _ _ _ Li); exact H1).
+        destruct SO as [[_ [_ C]]|[[_ [_ [C _]]]|[[_ [_ C]]|[[_ [_ [C _]]]|[[_ [_ C]]|[_ [_ [C _]]]]]]]];
+          try (rewrite C in H1; apply (L_uid _ _ _ _ Li); exact H1).
         * destruct C as [_ [n [N1 [_ N3]]]]. rewrite N1 in H1. injection H1 as <-. rewrite N3.
           left. exists c. auto.
         * destruct C as [_ N1]. congruence.
@@ -470,24 +526,27 @@ Section Inv.
       + intros u0 E. discriminate E.
       + intros u0 E. discriminate E.
       + intros X. rewrite SA in X. destruct ab.
-        * destruct SO as [[_ [Hb _]]|[[Ha _]|[[Ha _]|[[_ [Hb _]]|[_ [Hb _]]]]]]; try discriminate; subst a; eauto.
+        * destruct SO as [[_ [Hb _]]|[[Ha _]|[[Ha _]|[[_ [Hb _]]|[[_ [Hb _]]|[_ [Hb _]]]]]]]; try discriminate; subst a; eauto.
         * contradiction.
-      + intros X. apply (L_ns _ _ _ Li). rewrite STR in X. apply (nscreated_frame _ _ _ NS X).
+      + intros X. apply (L_ns _ _ _ _ Li). rewrite STR in X. apply (nscreated_frame _ _ _ NS X).
       + intros X. contradiction.
+    - unfold PipelineOrphansWait.cacheok. unfold s'. rewrite cache_prune_one. exact A9.
   Qed.
 
-  Lemma j_prune_fold locals g uids f td layer : (dry = false -> uids_ok uids) -> Forall (prune_ok pl) layer ->
-    forall s, stepj f (map p_id layer ++ td) f td s (fold_left (prune_one sc pl locals g uids) layer s).
+  Lemma j_prune_fold locals g uids f td tw layer : (dry = false -> uids_ok uids) -> Forall (prune_ok pl) layer ->
+    (dry = false -> forall p, In p layer -> In (p_id p) tw) ->
+    forall s, stepj f (map p_id layer ++ td) tw f td tw s (fold_left (prune_one sc pl locals g uids) layer s).
   Proof.
-    intros HU. induction layer as [|p t IH]; intros F s; cbn [fold_left map app].
+    intros HU. induction layer as [|p t IH]; intros F HW s; cbn [fold_left map app].
     - apply stepj_refl.
     - inversion F as [|? ? Fp Ft]; subst.
-      eapply stepj_trans; [apply j_prune_one; [exact HU|exact Fp]|apply IH; exact Ft].
+      eapply stepj_trans; [apply j_prune_one; [exact HU|exact Fp|intros D; apply (HW D); left; reflexivity]|].
+      apply IH; [exact Ft|]. intros D q Hq. apply (HW D). right. exact Hq.
   Qed.
 
   (* a step whose justification needs the invariant of the state it starts from *)
-  Lemma stepj_cond f td f' td' s s' :
-    (exists l, r_tr s' = l ++ r_tr s) -> (Ij f td s -> stepj f td f' td' s s') -> stepj f td f' td' s s'.
+  Lemma stepj_cond f td tw f' td' tw' s s' :
+    (exists l, r_tr s' = l ++ r_tr s) -> (Ij f td tw s -> stepj f td tw f' td' tw' s s') -> stepj f td tw f' td' tw' s s'.
   Proof.
     intros [l E] H. exists l. split; [exact E|]. intros KF I0.
     destruct (H I0) as [l' [E' H']]. assert (l' = l) by (eapply app_inv_tail; rewrite <- E, <- E'; reflexivity).
@@ -504,42 +563,89 @@ Section Inv.
     exists (l ++ IEv (EPrune g (c_id c) (ast_of a)) :: lt). rewrite E, STR, <- app_assoc. reflexivity.
   Qed.
 
-  Lemma Big_uids_ok f td s : Big f td s -> uids_ok (applied_uids (r_tbl s)).
+  Lemma Big_uids_ok f td tw s : Big f td tw s -> uids_ok (applied_uids (r_tbl s)).
   Proof.
-    intros B u Hu. destruct (applied_uids_tv _ _ (B_keys _ _ _ B) Hu) as [i Hi].
-    destruct (L_app _ _ _ (B_loc _ _ _ B i) _ _ _ Hi eq_refl) as [H1 H2]. exists i. auto.
+    intros B u Hu. destruct (applied_uids_tv _ _ (B_keys _ _ _ _ B) Hu) as [i Hi].
+    destruct (L_app _ _ _ _ (B_loc _ _ _ _ B i) _ _ _ Hi eq_refl) as [H1 H2]. exists i. auto.
   Qed.
 
-  Lemma j_prune_task locals g f td s layer : Forall (prune_ok pl) layer ->
-    stepj f (map p_id layer ++ td) f td s (prune_task sc pl locals g s layer).
+  Lemma j_prune_task locals g f td tw s layer : Forall (prune_ok pl) layer ->
+    (dry = false -> forall p, In p layer -> In (p_id p) tw) ->
+    stepj f (map p_id layer ++ td) tw f td tw s (prune_task sc pl locals g s layer).
   Proof.
-    intros F. unfold prune_task. apply stepj_cond; [apply prune_fold_ext; exact F|].
-    intros I0. apply j_prune_fold; [|exact F].
+    intros F HW. unfold prune_task. apply stepj_cond; [apply prune_fold_ext; exact F|].
+    intros I0. apply j_prune_fold; [|exact F|exact HW].
     intros D. unfold Ij in I0. rewrite D in I0. eapply Big_uids_ok; exact I0.
   Qed.
 
-  Lemma j_wait_task c g ids f td s : stepj f td f td s (wait_task sc c g ids s).
-  Proof. apply stepj_quiet, q_wait_task. Qed.
+  (* ---- wait ------------------------------------------------------------------------------------- *)
+  (* a wait phase over ids: the invariant is kept with the same wait-todo set tw; if the phase ends
+     without setting the abort flag, no id of its set is left Pending, so ids may leave tw.
+     An AllCurrent phase waits for apply ids only: it never touches the record of a prune id. *)
+  Lemma j_wait_task c g ids f td tw tw' s :
+    (c = AllCurrent -> forall j, In j ids -> In j aids) ->
+    (c = AllNotFound -> forall j, In j ids -> In j tw) ->
+    (forall j, In j tw -> In j ids \/ In j tw') ->
+    let s' := wait_task sc c g ids s in
+    stepj f td tw f td tw s s' /\ (r_abort s' = false -> stepj f td tw f td tw' s s').
+  Proof.
+    intros HC HN HT. cbv zeta.
+    pose proof (q_wait_task sc c g ids s) as Q.
+    set (s' := wait_task sc c g ids s) in *.
+    destruct Q as [Q1 [Q2 [Q3 [Q4 [l [Q5 Q6]]]]]].
+    assert (CORE : Ij f td tw s -> Ij f td tw s' /\ (r_abort s' = false -> Ij f td tw' s')).
+    { unfold Ij. destruct dry; [intros E; split; [|intros _]; congruence|].
+      intros [A1 A2 A3 A4 A5 A6 A7 A8 A9].
+      destruct (wait_task_fin sc c0 c g ids s A9 fin_deliv) as [W1 [W2 [W3 W4]]]. fold s' in W1, W2, W3, W4.
+      assert (MK : forall twx, (forall j, In j pids -> ling s j -> rcok s tw j -> rcok s' twx j) -> Big f td twx s').
+      { intros twx HR. constructor; rewrite ?Q1, ?Q3; try assumption.
+        intros j. apply (Loc_frame_rc s s' td td tw twx j l); try rewrite Q1; try rewrite Q2; try tauto.
+        - apply Q4.
+        - apply nscreated_frame. eapply Forall_impl; [|exact Q6]. apply nonsc_noreq.
+        - apply HR.
+        - apply A8. }
+      (* how the status of a lingering prune id moves *)
+      assert (MOVE : forall j, In j pids -> ling s j -> rcok s tw j ->
+                (~ In j ids /\ rc s' j = rc s j) \/ (In j ids /\ c = AllNotFound /\ rc3 (rc s' j))).
+      { intros j Hp L R. destruct (in_dec Nat.eq_dec j ids) as [X|X]; [right|left; split; [exact X|apply W2; exact X]].
+        assert (EC : c = AllNotFound).
+        { destruct c; [exfalso|reflexivity]. exact (pl_disj j (HC eq_refl j X) Hp). }
+        split; [exact X|]. split; [exact EC|]. apply (W3 EC j L).
+        unfold rc3. destruct R as [R|[R|[R _]]]; auto. }
+      split.
+      - apply MK. intros j Hp L R. destruct (MOVE j Hp L R) as [[X E]|[X [EC R3]]].
+        + unfold rcok in *. rewrite E. exact R.
+        + unfold rcok. destruct R3 as [E|[E|E]]; [|auto|auto]. right; right. split; [exact E|exact (HN EC j X)].
+      - intros AB. apply MK. intros j Hp L R. destruct (MOVE j Hp L R) as [[X E]|[X [EC R3]]].
+        + unfold rcok in *. rewrite E. destruct R as [R|[R|[R T]]]; [auto|auto|]. right; right. split; [exact R|].
+          destruct (HT j T) as [Y|Y]; [contradiction|exact Y].
+        + unfold rcok. destruct R3 as [E|[E|E]]; [|auto|auto]. exfalso. exact (W4 AB j X E). }
+    split; [|intros AB]; exists l; (split; [exact Q5|]); intros _ I0;
+      (split; [|apply Forall_Qj_noreq; exact Q6]); apply CORE; assumption.
+  Qed.
 
   (* ---- inventory writes --------------------------------------------------------------------------- *)
   Lemma fo_invchg cl cl' j : invchg cl cl' -> fo cl' j = fo cl j.
   Proof. intros [E _]. unfold fo. rewrite E. reflexivity. Qed.
 
-  Lemma Big_invchg f f' td s1 s' lt :
-    Big f td s1 -> r_tbl s' = r_tbl s1 -> r_aband s' = r_aband s1 -> invchg (r_cl s1) (r_cl s') ->
+  Lemma Big_invchg f f' td tw s1 s' lt :
+    Big f td tw s1 -> r_tbl s' = r_tbl s1 -> r_cache s' = r_cache s1 -> r_aband s' = r_aband s1 ->
+    invchg (r_cl s1) (r_cl s') ->
     r_tr s' = lt ++ r_tr s1 -> Forall nonsc lt -> J sc c0 (r_cl s') ->
-    (f' = P0 -> inv (r_cl s') = inv c0) -> (f' = P1 -> merged (r_cl s')) -> Big f' td s'.
+    (f' = P0 -> inv (r_cl s') = inv c0) -> (f' = P1 -> merged (r_cl s')) -> Big f' td tw s'.
   Proof.
-    intros [A1 A2 A3 A4 A5 A6 A7 A8] Ht Ha Hc Htr Hn HJ H0 H1.
+    intros [A1 A2 A3 A4 A5 A6 A7 A8 A9] Ht Hk Ha Hc Htr Hn HJ H0 H1.
     constructor; try assumption.
     - unfold ids_of. rewrite (proj1 Hc). exact A1.
     - rewrite Ht. exact A2.
     - rewrite (proj2 Hc). exact A4.
-    - intros j. apply (Loc_frame s1 s' td td j lt); auto.
+    - intros j. apply (Loc_frame s1 s' td td tw tw j lt); auto.
       + apply fo_invchg. exact Hc.
       + unfold tv. rewrite Ht. reflexivity.
+      + unfold rc. rewrite Ht. reflexivity.
       + rewrite Ha. tauto.
       + tauto.
+    - unfold PipelineOrphansWait.cacheok. rewrite Hk. exact A9.
   Qed.
 
   (* the stored inventory is replaced by keys L that cover every owned, non-exempt object *)
@@ -553,12 +659,12 @@ Section Inv.
   Definition with4 (s : rst) (cl : cluster) (tr : list item) : rst :=
     mkR cl (r_tbl s) (r_cache s) (r_aband s) (r_nlist s) (r_nget s) (r_nwrite s) (r_gets s) tr (r_abort s).
 
-  Lemma Big_ns_created td s cl1 n u :
-    Big P0 td s -> sc_inv_ns sc = Some n -> In n aids -> fo (r_cl s) n = None -> applied (r_cl s) cl1 n u ->
-    Big P0 td (with4 s cl1 (IReq (RNsCreate n) true (managed cl1) (stored cl1) :: r_tr s)).
+  Lemma Big_ns_created td tw s cl1 n u :
+    Big P0 td tw s -> sc_inv_ns sc = Some n -> In n aids -> fo (r_cl s) n = None -> applied (r_cl s) cl1 n u ->
+    Big P0 td tw (with4 s cl1 (IReq (RNsCreate n) true (managed cl1) (stored cl1) :: r_tr s)).
   Proof.
-    intros [A1 A2 A3 A4 A5 A6 A7 A8] EN Hn Hnone AP.
-    pose proof (okuid_applied s td cl1 n u A4 (A8 n) AP) as OKU.
+    intros [A1 A2 A3 A4 A5 A6 A7 A8 A9] EN Hn Hnone AP.
+    pose proof (okuid_applied s td tw cl1 n u A4 (A8 n) AP) as OKU.
     destruct AP as [[F1 [F2 [F3 F4]]] [o [N1 [N2 [N3 _]]]]].
     set (s1 := with4 s cl1 _).
     assert (HJ : J sc c0 cl1).
@@ -566,7 +672,7 @@ Section Inv.
       - right. rewrite F1, (A6 eq_refl). pose proof (c0_ns n) as NSH.
         destruct (inv c0) as [l0|] eqn:E0; [|auto].
         destruct (NSH l0 EN eq_refl) as [X|X]; [|exact X].
-        exfalso. apply (L_keep _ _ _ (A8 n) Hn X). exact Hnone.
+        exfalso. apply (L_keep _ _ _ _ (A8 n) Hn X). exact Hnone.
       - rewrite (F2 k Hk) in Hc. eapply tracked_inv; [exact F1|]. eapply A5; eassumption. }
     constructor; try assumption.
     - apply F3. exact A1.
@@ -583,7 +689,7 @@ Section Inv.
         * cbn. intros u0 H. destruct (B9 u0 H) as [g Hg]. exists g. right. exact Hg.
         * intros _. exact Hn.
         * cbn. intros _ _. rewrite N1. discriminate.
-      + apply (Loc_frame_gen s s1 td td j [IReq (RNsCreate n) true (managed cl1) (stored cl1)]); try tauto.
+      + apply (Loc_frame_gen s s1 td td tw tw j [IReq (RNsCreate n) true (managed cl1) (stored cl1)]); try tauto; try reflexivity.
         * apply F2. exact Hj.
         * intros [m [st [H|H]]]; [injection H as H; congruence|exists m, st; exact H].
         * apply A8.
@@ -592,8 +698,8 @@ Section Inv.
   Lemma prev0_nil : inv c0 = None -> forall j, ~ In j prev0.
   Proof. intros E j. unfold inv0. rewrite E. intros []. Qed.
 
-  Lemma j_inv_add_task td s :
-    stepj P0 td (if snd (inv_add_task sc pl s) then P1 else P2) td s (fst (inv_add_task sc pl s)).
+  Lemma j_inv_add_task td tw s :
+    stepj P0 td tw (if snd (inv_add_task sc pl s) then P1 else P2) td tw s (fst (inv_add_task sc pl s)).
   Proof.
     destruct (inv_add_task_spec sc pl s pl_local) as [ST [SA [cl1 [lt1 [lt2 [STR [NSS [IC [SF2 [OKF [OKT DRY]]]]]]]]]]].
     set (s' := fst (inv_add_task sc pl s)) in *. set (ok := snd (inv_add_task sc pl s)) in *.
@@ -603,39 +709,40 @@ Section Inv.
       pose proof (DRY eq_refl) as C. split; [congruence|]. apply Forall_app. split.
       - rewrite C, I0 in SF2. eapply Forall_Qj_snap; [exact c0_nodup|apply J_c0|exact SF2].
       - rewrite I0 in F1. eapply Forall_Qj_snap; [exact c0_nodup|apply J_c0|exact F1]. }
-    assert (B1 : exists s1, r_cl s1 = cl1 /\ r_tbl s1 = r_tbl s /\ r_aband s1 = r_aband s /\ r_tr s1 = lt1 ++ r_tr s /\
-                            Big P0 td s1 /\ Forall Qj lt1).
+    assert (B1 : exists s1, r_cl s1 = cl1 /\ r_tbl s1 = r_tbl s /\ r_cache s1 = r_cache s /\ r_aband s1 = r_aband s /\
+                            r_tr s1 = lt1 ++ r_tr s /\ Big P0 td tw s1 /\ Forall Qj lt1).
     { destruct NSS as [[-> F1]|[_ [n [u [EN [Hn [Hnone [AP ->]]]]]]]].
       - exists (with4 s (r_cl s) (lt1 ++ r_tr s)). repeat (split; [reflexivity|]). split.
-        + apply (Big_invchg P0 P0 td s _ lt1 I0); try reflexivity.
+        + apply (Big_invchg P0 P0 td tw s _ lt1 I0); try reflexivity.
           * apply invchg_refl.
           * eapply Forall_impl; [|exact F1]. intros it. apply nonsc_snap.
-          * exact (B_J _ _ _ I0).
-          * intros _. exact (B_p0 _ _ _ I0 eq_refl).
+          * exact (B_J _ _ _ _ I0).
+          * intros _. exact (B_p0 _ _ _ _ I0 eq_refl).
           * discriminate.
-        + eapply Forall_Qj_snap; [exact (B_nd _ _ _ I0)|exact (B_J _ _ _ I0)|exact F1].
+        + eapply Forall_Qj_snap; [exact (B_nd _ _ _ _ I0)|exact (B_J _ _ _ _ I0)|exact F1].
       - exists (with4 s cl1 (IReq (RNsCreate n) true (managed cl1) (stored cl1) :: r_tr s)).
         repeat (split; [reflexivity|]).
-        pose proof (Big_ns_created td s cl1 n u I0 EN Hn Hnone AP) as BB. split; [exact BB|].
+        pose proof (Big_ns_created td tw s cl1 n u I0 EN Hn Hnone AP) as BB. split; [exact BB|].
         constructor; [|constructor]. cbn. split; [|discriminate].
-        apply J_snap; [exact (B_nd _ _ _ BB)|exact (B_J _ _ _ BB)]. }
-    destruct B1 as [s1 [E1 [E2 [E3 [E4 [BB FQ1]]]]]].
+        apply J_snap; [exact (B_nd _ _ _ _ BB)|exact (B_J _ _ _ _ BB)]. }
+    destruct B1 as [s1 [E1 [E2 [EK [E3 [E4 [BB FQ1]]]]]]].
     assert (J' : J sc c0 (r_cl s')).
     { destruct ok eqn:EOK.
       - destruct (OKT eq_refl) as [[D _]|[L [M1 [M2 M3]]]]; [congruence|].
         apply (J_rewrite cl1 (r_cl s') L IC M1). intros j c Hc Ho.
-        rewrite <- E1 in Hc. destruct (B_J _ _ _ BB j c Hc Ho) as [X|X]; [left; exact X|].
+        rewrite <- E1 in Hc. destruct (B_J _ _ _ _ BB j c Hc Ho) as [X|X]; [left; exact X|].
         rewrite E1 in X. destruct (inv cl1) as [cur|] eqn:EC.
         + right. eapply M3; [reflexivity|exact X].
-        + destruct X as [X1 X2]. destruct (L_orig _ _ _ (B_loc _ _ _ BB j) c Hc Ho) as [H|[[u1 H]|H]].
+        + destruct X as [X1 X2]. destruct (L_orig _ _ _ _ (B_loc _ _ _ _ BB j) c Hc Ho) as [H|[[u1 H]|H]].
           * destruct (owned0_exempt_or_prev c0 j H) as [Y|Y]; [left; exact Y|].
             exfalso. exact (prev0_nil X2 j Y).
-          * right. apply M2. apply (L_app _ _ _ (B_loc _ _ _ BB j) _ _ _ H eq_refl).
-          * right. apply M2. apply (L_ns _ _ _ (B_loc _ _ _ BB j) H).
-      - rewrite (OKF eq_refl), <- E1. exact (B_J _ _ _ BB). }
-    assert (BIG' : Big (if ok then P1 else P2) td s').
-    { apply (Big_invchg P0 _ td s1 s' lt2 BB).
+          * right. apply M2. apply (L_app _ _ _ _ (B_loc _ _ _ _ BB j) _ _ _ H eq_refl).
+          * right. apply M2. apply (L_ns _ _ _ _ (B_loc _ _ _ _ BB j) H).
+      - rewrite (OKF eq_refl), <- E1. exact (B_J _ _ _ _ BB). }
+    assert (BIG' : Big (if ok then P1 else P2) td tw s').
+    { apply (Big_invchg P0 _ td tw s1 s' lt2 BB).
       - congruence.
+      - unfold s'. rewrite cache_inv_add_task. congruence.
       - congruence.
       - rewrite E1. exact IC.
       - rewrite STR, E4. reflexivity.
@@ -645,7 +752,7 @@ Section Inv.
       - destruct ok eqn:EOK; [|discriminate]. intros _.
         destruct (OKT eq_refl) as [[D _]|[L [M1 [M2 M3]]]]; [congruence|]. exists L. auto. }
     split; [exact BIG'|]. apply Forall_app. split; [|exact FQ1].
-    eapply Forall_Qj_snap; [exact (B_nd _ _ _ BIG')|exact J'|exact SF2].
+    eapply Forall_Qj_snap; [exact (B_nd _ _ _ _ BIG')|exact J'|exact SF2].
   Qed.
 
   (* ---- the inventory-set task: retention --------------------------------------------------------------- *)
@@ -669,15 +776,31 @@ Section Inv.
     rewrite !unionn_In, !intern_In. tauto.
   Qed.
 
-  Lemma retained f s : Big f [] s -> KFp prev0 (r_tr s) -> In (IEv (EStarted (GInvSet, 0))) (r_tr s) ->
+  Lemma ds_true_rec pv s : destroy_successful pl pv s = true ->
+    with_reconcile (r_tbl s) RFailed = [] /\ with_reconcile (r_tbl s) RTimeout = [].
+  Proof.
+    unfold destroy_successful. destruct (with_actuation (r_tbl s) SDelete AFailed); [|discriminate].
+    destruct (with_reconcile (r_tbl s) RFailed); [|discriminate].
+    destruct (with_reconcile (r_tbl s) RTimeout); [|discriminate]. auto.
+  Qed.
+
+  Lemma in_final_rec pv s j : ~ In j (r_aband s) -> In j pv ->
+    In j (with_reconcile (r_tbl s) RFailed) \/ In j (with_reconcile (r_tbl s) RTimeout) ->
+    In j (final_inventory pl pv s).
+  Proof.
+    intros NA Hp H. unfold final_inventory. apply unionn_In. left. apply diffn_In. split; [|exact NA].
+    rewrite !unionn_In, !intern_In. tauto.
+  Qed.
+
+  Lemma retained f s : Big f [] [] s -> KFp prev0 (r_tr s) -> In (IEv (EStarted (GInvSet, 0))) (r_tr s) ->
     forall j c, fo (r_cl s) j = Some c -> c_owner c = OOurs ->
       In j (exempt0 c0) \/
       (In j (final_inventory pl prev0 s) /\
        (o_destroy (sc_opts sc) = true -> destroy_successful pl prev0 s = false)).
   Proof.
-    intros B KF ST j c Hc Ho. pose proof (B_loc _ _ _ B j) as Lj. pose proof (B_keys _ _ _ B) as NDK.
+    intros B KF ST j c Hc Ho. pose proof (B_loc _ _ _ _ B j) as Lj. pose proof (B_keys _ _ _ _ B) as NDK.
     assert (NP : forall st u, tv s j = Some (st, APending, u) -> False).
-    { intros st u H. exact (L_todo _ _ _ Lj st u H). }
+    { intros st u H. exact (L_todo _ _ _ _ Lj st u H). }
     assert (WA : forall st a u, tv s j = Some (st, a, u) -> In j (with_actuation (r_tbl s) st a)).
     { intros st a u H. apply with_actuation_tv; [exact NDK|]. exists u. exact H. }
     (* an apply id: retained through its apply record *)
@@ -685,14 +808,14 @@ Section Inv.
                   In j (final_inventory pl prev0 s) /\ (o_destroy (sc_opts sc) = true -> destroy_successful pl prev0 s = false)).
     { intros Hin HP. split.
       2:{ intros D. rewrite (pl_destroy D) in Hin. destruct Hin. }
-      destruct (L_reg _ _ _ Lj Hin) as [a [u E]].
-      assert (NA : ~ In j (r_aband s)) by (intros X; destruct (L_ab _ _ _ Lj X) as [u1 E1]; congruence).
+      destruct (L_reg _ _ _ _ Lj Hin) as [a [u E]].
+      assert (NA : ~ In j (r_aband s)) by (intros X; destruct (L_ab _ _ _ _ Lj X) as [u1 E1]; congruence).
       apply in_final; [exact NA|]. destruct a.
       - exfalso. eapply NP. exact E.
       - left. eapply WA. exact E.
       - right. split; [apply (HP u); auto|]. right; left. eapply WA. exact E.
       - right. split; [apply (HP u); auto|]. left. eapply WA. exact E. }
-    destruct (L_orig _ _ _ Lj c Hc Ho) as [H|[[u1 H]|H]].
+    destruct (L_orig _ _ _ _ Lj c Hc Ho) as [H|[[u1 H]|H]].
     - (* owned before the run *)
       destruct (owned0_exempt_or_prev c0 j H) as [Y|Y]; [left; exact Y|right].
       destruct H as [c' [Hc' _]]. destruct (pl_cover j c' Hc' Y) as [Z|[Z|Z]].
@@ -701,9 +824,15 @@ Section Inv.
         intros _. destruct (destroy_successful pl prev0 s) eqn:DS; [|reflexivity].
         destruct (ds_true _ _ DS) as [_ [_ X]]. exfalso.
         assert (In j (intern prev0 (pl_invalid pl))) by (apply intern_In; auto). rewrite X in H. destruct H.
-      + destruct (L_ret _ _ _ Lj c Hc Ho Z) as [a [u [E [NS NA]]]]. destruct a.
+      + destruct (L_ret _ _ _ _ Lj c Hc Ho Z) as [a [u [E [NA LG]]]]. destruct a.
         * exfalso. eapply NP. exact E.
-        * congruence.
+        * (* delete accepted, object held by a finalizer: retained through its reconcile status *)
+          destruct (LG eq_refl) as [_ R].
+          assert (RR : In j (with_reconcile (r_tbl s) RFailed) \/ In j (with_reconcile (r_tbl s) RTimeout)).
+          { destruct R as [R|[R|[_ []]]]; [left|right]; apply with_reconcile_rc; assumption. }
+          split; [apply in_final_rec; assumption|].
+          intros _. destruct (destroy_successful pl prev0 s) eqn:DS; [|reflexivity].
+          destruct (ds_true_rec _ _ DS) as [X1 X2]. exfalso. rewrite X1, X2 in RR. destruct RR as [[]|[]].
         * split; [apply in_final; [exact NA|]; right; split; [exact Y|]; right; right; right; eapply WA; exact E|].
           intros _. destruct (destroy_successful pl prev0 s) eqn:DS; [|reflexivity].
           destruct (ds_true _ _ DS) as [_ [X _]]. exfalso.
@@ -715,20 +844,20 @@ Section Inv.
           destruct (ds_true _ _ DS) as [X _]. exfalso.
           pose proof (WA _ _ _ E) as W. rewrite X in W. destruct W.
     - (* applied in this run *)
-      right. apply APP; [apply (L_app _ _ _ Lj _ _ _ H eq_refl)|].
+      right. apply APP; [apply (L_app _ _ _ _ Lj _ _ _ H eq_refl)|].
       intros u [X|X]; congruence.
     - (* the inventory namespace created by the inventory-add task *)
-      right. apply APP; [apply (L_ns _ _ _ Lj H)|].
+      right. apply APP; [apply (L_ns _ _ _ _ Lj H)|].
       intros u X. destruct (in_dec Nat.eq_dec j prev0) as [Y|Y]; [exact Y|].
       exfalso. destruct H as [m [st Hns]].
       destruct X as [X|X].
-      + destruct (L_evf _ _ _ Lj u X) as [g Hg]. destruct (KF j m st g Y Hns ST) as [K _]. exact (K Hg).
-      + destruct (L_evs _ _ _ Lj u X) as [g Hg]. destruct (KF j m st g Y Hns ST) as [_ K]. exact (K Hg).
+      + destruct (L_evf _ _ _ _ Lj u X) as [g Hg]. destruct (KF j m st g Y Hns ST) as [K _]. exact (K Hg).
+      + destruct (L_evs _ _ _ _ Lj u X) as [g Hg]. destruct (KF j m st g Y Hns ST) as [_ K]. exact (K Hg).
   Qed.
 
   Lemma j_inv_set_task f prev s :
     In (IEv (EStarted (GInvSet, 0))) (r_tr s) -> (forall pv, prev = Some pv -> pv = prev0) ->
-    stepj f [] P2 [] s (fst (inv_set_task sc pl prev s)).
+    stepj f [] [] P2 [] [] s (fst (inv_set_task sc pl prev s)).
   Proof.
     intros HST HP.
     destruct (inv_set_task_spec sc pl prev s) as [ST [SA [IC [lt [STR ALT]]]]]. cbv zeta in *.
@@ -738,12 +867,12 @@ Section Inv.
       split; [congruence|]. rewrite C, I0 in F. eapply Forall_Qj_snap; [exact c0_nodup|apply J_c0|exact F]. }
     assert (KF0 : KFp prev0 (r_tr s)) by (rewrite STR in KF; eapply KFp_suffix; exact KF).
     pose proof (retained f s I0 KF0 HST) as RET.
-    assert (ND' : NoDup (ids_of (r_cl s'))) by (unfold ids_of; rewrite (proj1 IC); exact (B_nd _ _ _ I0)).
+    assert (ND' : NoDup (ids_of (r_cl s'))) by (unfold ids_of; rewrite (proj1 IC); exact (B_nd _ _ _ _ I0)).
     destruct ALT as [[C F]|[[pv [EP [_ [DD [DS [EI ->]]]]]]|[pv [EP [_ [EI F]]]]]].
     - (* nothing written *)
-      assert (J' : J sc c0 (r_cl s')) by (rewrite C; exact (B_J _ _ _ I0)).
+      assert (J' : J sc c0 (r_cl s')) by (rewrite C; exact (B_J _ _ _ _ I0)).
       split; [|eapply Forall_Qj_snap; eassumption].
-      apply (Big_invchg f P2 [] s s' lt I0); auto; try discriminate.
+      apply (Big_invchg f P2 [] [] s s' lt I0); auto; try discriminate; try (unfold s'; apply cache_inv_set_task).
       eapply Forall_impl; [|exact F]. intros it. apply nonsc_snap.
     - (* the inventory object is deleted: nothing owned is left but exempt objects *)
       rewrite (HP pv EP) in DS.
@@ -752,7 +881,7 @@ Section Inv.
       assert (J' : J sc c0 (r_cl s')).
       { intros j c Hc Ho. left. rewrite (fo_invchg _ _ j IC) in Hc. eapply EX; eassumption. }
       split.
-      + apply (Big_invchg f P2 [] s s' [IReq RInvDelete true (managed (r_cl s')) (stored (r_cl s'))] I0); auto; try discriminate.
+      + apply (Big_invchg f P2 [] [] s s' [IReq RInvDelete true (managed (r_cl s')) (stored (r_cl s'))] I0); auto; try discriminate; try (unfold s'; apply cache_inv_set_task).
         constructor; [exact I|constructor].
       + constructor; [|constructor]. cbn. split; [apply J_snap; assumption|].
         intros _ _ i Hi. destruct (managed_fo _ i ND' Hi) as [c [Hc Ho]].
@@ -763,7 +892,7 @@ Section Inv.
       { apply (J_rewrite (r_cl s) (r_cl s') _ IC EI). intros j c Hc Ho.
         destruct (RET j c Hc Ho) as [X|[X _]]; [left; exact X|right; apply sortn_In; exact X]. }
       split; [|eapply Forall_Qj_snap; eassumption].
-      apply (Big_invchg f P2 [] s s' lt I0); auto; try discriminate.
+      apply (Big_invchg f P2 [] [] s s' lt I0); auto; try discriminate; try (unfold s'; apply cache_inv_set_task).
       eapply Forall_impl; [|exact F]. intros it. apply nonsc_snap.
   Qed.
 
@@ -771,57 +900,89 @@ Section Inv.
   Definition todo_of (ts : list task) : list id :=
     flat_map (fun t => match t with TApply _ l | TPrune _ l => map p_id l | _ => [] end) ts.
 
-  (* the shape of a task list the invariant can be carried through, from phase f on *)
+  (* ids whose delete-wait is still to come *)
+  Definition wtodo_of (ts : list task) : list id :=
+    flat_map (fun t => match t with TWait _ AllNotFound ids => ids | _ => [] end) ts.
+
+  (* the shape of a task list the invariant can be carried through, from phase f on:
+     an AllCurrent wait waits for apply ids; outside dry-run every prune task is followed by
+     a wait task over (at least) its ids *)
   Fixpoint sched (f : flag) (ts : list task) : Prop :=
     match ts with
     | [] => True
     | TInvAdd :: r => f = P0 /\ sched P1 r
     | TApply _ l :: r => f = P1 /\ Forall local_ok' l /\ sched P1 r
-    | TWait _ _ _ :: r => sched f r
-    | TPrune _ l :: r => Forall (prune_ok pl) l /\ sched f r
+    | TWait _ c ids :: r => (c = AllCurrent -> forall j, In j ids -> In j aids) /\ sched f r
+    | TPrune _ l :: r => Forall (prune_ok pl) l /\
+                         (dry = false -> forall p, In p l -> In (p_id p) (wtodo_of r)) /\ sched f r
     | TInvSet :: r => r = []
     end.
 
   Lemma j_run_task locals prev f s t rest :
     sched f (t :: rest) -> (forall pv, prev = Some pv -> pv = prev0) ->
-    exists f1, stepj f (todo_of (t :: rest)) f1 (todo_of rest) s (fst (run_task sc pl locals prev s t)) /\
-               (snd (run_task sc pl locals prev s t) = true -> sched f1 rest).
+    exists f1,
+      stepj f (todo_of (t :: rest)) (wtodo_of (t :: rest)) f1 (todo_of rest) (wtodo_of (t :: rest)) s
+            (fst (run_task sc pl locals prev s t)) /\
+      (r_abort (fst (run_task sc pl locals prev s t)) = false ->
+       stepj f (todo_of (t :: rest)) (wtodo_of (t :: rest)) f1 (todo_of rest) (wtodo_of rest) s
+             (fst (run_task sc pl locals prev s t))) /\
+      (snd (run_task sc pl locals prev s t) = true -> sched f1 rest).
   Proof.
     intros H HP. unfold run_task. cbv zeta. destruct t; cbn [sched] in H.
     - destruct H as [-> H].
-      pose proof (j_inv_add_task (todo_of rest) (ev s (EStarted (task_name TInvAdd)))) as T.
+      pose proof (j_inv_add_task (todo_of rest) (wtodo_of rest) (ev s (EStarted (task_name TInvAdd)))) as T.
       destruct (inv_add_task sc pl _) as [s1 ok]. cbn [fst snd] in *.
-      exists (if ok then P1 else P2). split; [|intros ->; exact H].
-      eapply stepj_trans; [apply stepj_ev|]. eapply stepj_trans; [exact T|apply stepj_ev].
-    - destruct H as [-> [Hl H]]. cbn [fst snd]. exists P1. split; [|intros _; exact H].
-      eapply stepj_trans; [apply stepj_ev|]. eapply stepj_trans; [|apply stepj_ev].
-      cbn [todo_of flat_map]. apply j_apply_task. exact Hl.
-    - cbn [fst snd]. exists f. split; [|intros _; exact H].
-      eapply stepj_trans; [apply stepj_ev|]. eapply stepj_trans; [|apply stepj_ev]. apply j_wait_task.
-    - destruct H as [Hl H]. cbn [fst snd]. exists f. split; [|intros _; exact H].
-      eapply stepj_trans; [apply stepj_ev|]. eapply stepj_trans; [|apply stepj_ev].
-      cbn [todo_of flat_map]. apply j_prune_task. exact Hl.
+      assert (S : stepj P0 (todo_of (TInvAdd :: rest)) (wtodo_of rest) (if ok then P1 else P2) (todo_of rest) (wtodo_of rest) s
+                        (ev s1 (EFinished (task_name TInvAdd)))).
+      { eapply stepj_trans; [apply stepj_ev|]. eapply stepj_trans; [exact T|apply stepj_ev]. }
+      exists (if ok then P1 else P2). split; [exact S|]. split; [intros _; exact S|intros ->; exact H].
+    - destruct H as [-> [Hl H]]. cbn [fst snd].
+      assert (S : stepj P1 (todo_of (TApply k layer :: rest)) (wtodo_of rest) P1 (todo_of rest) (wtodo_of rest) s
+                        (ev (apply_task sc pl (task_name (TApply k layer)) (ev s (EStarted (task_name (TApply k layer)))) layer)
+                            (EFinished (task_name (TApply k layer))))).
+      { eapply stepj_trans; [apply stepj_ev|]. eapply stepj_trans; [|apply stepj_ev].
+        cbn [todo_of flat_map]. apply j_apply_task. exact Hl. }
+      exists P1. split; [exact S|]. split; [intros _; exact S|intros _; exact H].
+    - destruct H as [HC H]. cbn [fst snd]. exists f.
+      set (tw := wtodo_of (TWait k c ids :: rest)).
+      assert (HN : c = AllNotFound -> forall j, In j ids -> In j tw).
+      { intros -> j Hj. unfold tw. cbn. apply in_or_app. left. exact Hj. }
+      assert (HT : forall j, In j tw -> In j ids \/ In j (wtodo_of rest)).
+      { intros j Hj. unfold tw in Hj. cbn in Hj. apply in_app_or in Hj. destruct c; [destruct Hj as [[]|Hj]; auto|tauto]. }
+      destruct (j_wait_task c (task_name (TWait k c ids)) ids f (todo_of rest) tw (wtodo_of rest)
+                  (ev s (EStarted (task_name (TWait k c ids)))) HC HN HT) as [W1 W2].
+      split; [|split; [|intros _; exact H]].
+      + eapply stepj_trans; [apply stepj_ev|]. eapply stepj_trans; [exact W1|apply stepj_ev].
+      + intros AB. eapply stepj_trans; [apply stepj_ev|]. eapply stepj_trans; [exact (W2 AB)|apply stepj_ev].
+    - destruct H as [Hl [HW H]]. cbn [fst snd].
+      assert (S : stepj f (todo_of (TPrune k layer :: rest)) (wtodo_of rest) f (todo_of rest) (wtodo_of rest) s
+                        (ev (prune_task sc pl locals (task_name (TPrune k layer)) (ev s (EStarted (task_name (TPrune k layer)))) layer)
+                            (EFinished (task_name (TPrune k layer))))).
+      { eapply stepj_trans; [apply stepj_ev|]. eapply stepj_trans; [|apply stepj_ev].
+        cbn [todo_of flat_map]. apply j_prune_task; assumption. }
+      exists f. split; [exact S|]. split; [intros _; exact S|intros _; exact H].
     - subst rest.
       pose proof (j_inv_set_task f prev (ev s (EStarted (task_name TInvSet)))) as T.
       destruct (inv_set_task sc pl prev _) as [s1 ok]. cbn [fst snd] in *.
-      exists P2. split; [|intros _; exact I].
-      eapply stepj_trans; [apply stepj_ev|]. eapply stepj_trans; [|apply stepj_ev].
-      apply T; [left; reflexivity|exact HP].
+      assert (S : stepj f (todo_of [TInvSet]) (wtodo_of []) P2 (todo_of []) (wtodo_of []) s (ev s1 (EFinished (task_name TInvSet)))).
+      { eapply stepj_trans; [apply stepj_ev|]. eapply stepj_trans; [|apply stepj_ev].
+        apply T; [left; reflexivity|exact HP]. }
+      exists P2. split; [exact S|]. split; [intros _; exact S|intros _; exact I].
   Qed.
 
   Lemma j_run_tasks locals prev : (forall pv, prev = Some pv -> pv = prev0) ->
     forall ts f s, sched f ts ->
-      exists f' td', stepj f (todo_of ts) f' td' s (run_tasks sc pl locals prev s ts).
+      exists f' td' tw', stepj f (todo_of ts) (wtodo_of ts) f' td' tw' s (run_tasks sc pl locals prev s ts).
   Proof.
     intros HP. induction ts as [|t rest IH]; intros f s H; cbn [run_tasks].
-    - exists f, []. apply stepj_refl.
-    - destruct (j_run_task locals prev f s t rest H HP) as [f1 [S1 C1]].
+    - exists f, [], []. apply stepj_refl.
+    - destruct (j_run_task locals prev f s t rest H HP) as [f1 [S1 [S1' C1]]].
       destruct (run_task sc pl locals prev s t) as [s1 ok]. cbn [fst snd] in *.
       destruct ok; cbn [negb].
-      + destruct (r_abort s1).
-        * exists f1, (todo_of rest). eapply stepj_trans; [exact S1|apply stepj_ev].
-        * destruct (IH f1 s1 (C1 eq_refl)) as [f' [td' S2]]. exists f', td'.
-          eapply stepj_trans; [exact S1|exact S2].
-      + exists f1, (todo_of rest). eapply stepj_trans; [exact S1|apply stepj_ev].
+      + destruct (r_abort s1) eqn:AB.
+        * exists f1, (todo_of rest), (wtodo_of (t :: rest)). eapply stepj_trans; [exact S1|apply stepj_ev].
+        * destruct (IH f1 s1 (C1 eq_refl)) as [f' [td' [tw' S2]]]. exists f', td', tw'.
+          eapply stepj_trans; [exact (S1' eq_refl)|exact S2].
+      + exists f1, (todo_of rest), (wtodo_of (t :: rest)). eapply stepj_trans; [exact S1|apply stepj_ev].
   Qed.
 End Inv.
